@@ -1,6 +1,6 @@
 (* C01: the display-management payload and the whole RPU, read then written. *)
 From Coq Require Import List NArith ZArith Lia Bool String.
-From DV Require Import Outcome Bits BitIO Fields Blocks Crc32 Rpu Tables FieldsProofs HeaderRT MappingRT.
+From DV Require Import Outcome Bits BitIO Escape Fields Blocks Crc32 Rpu Tables FieldsProofs HeaderRT MappingRT.
 From DVgen Require Import Consts_gen Blocks_gen DmData_gen Switches_gen.
 Import ListNotations.
 Open Scope N_scope.
@@ -520,4 +520,69 @@ Proof.
   rewrite Hx in Hw.
   rewrite (read_write_data sw _ x0 (N.of_nat tz) E (forallb_firstn _ _ _ Hb) Hside p out Hw).
   rewrite Nat2N.id. symmetry. apply trailing_zero_split.
+Qed.
+
+(* ---------------------------------------------------------------- the entry points *)
+Lemma forallb_skipn {A} (f : A -> bool) k l : forallb f l = true -> forallb f (skipn k l) = true.
+Proof. revert l; induction k as [|k IH]; intros [|x l] H; cbn in *; auto. apply andb_prop in H. destruct H. auto. Qed.
+
+Lemma trimmed_is_suffix data d : validated_trimmed_data data = Ok d -> exists k, d = skipn k data.
+Proof.
+  unfold validated_trimmed_data. destruct (_ <? 25)%nat; [discriminate|].
+  intros H.
+  repeat match type of H with
+  | match ?l with _ => _ end = _ => destruct l; try discriminate
+  end;
+  inversion H; first [exists 0%nat; reflexivity | exists 1%nat; reflexivity | exists 2%nat; reflexivity
+                     | exists 3%nat; reflexivity | exists 4%nat; reflexivity].
+Qed.
+
+(* raw RPU entry point: the unmodified write returns the input without its start-code / NAL-header prefix *)
+Theorem parse_rpu_roundtrip sw data x :
+  parse_rpu Debug sw data = Ok x -> forallb is_byte data = true -> rpu_side_conditions x ->
+  exists d, validated_trimmed_data data = Ok d /\
+    forall p out, write_rpu p sw x = Ok out -> out = d.
+Proof.
+  unfold parse_rpu. intros H Hb Hs.
+  destruct (validated_trimmed_data data) as [d| |s] eqn:Ed; cbn [bind] in H; try discriminate.
+  exists d. split; [reflexivity|]. intros p out Hw.
+  destruct (trimmed_is_suffix _ _ Ed) as [k ->].
+  eapply rpu_roundtrip; [exact H|apply forallb_skipn; exact Hb|exact Hs|exact Hw].
+Qed.
+
+Lemma unesc_aux_subset l : forall p2 p1 x, In x (unesc_aux p2 p1 l) -> In x l.
+Proof.
+  induction l as [|b t IH]; intros p2 p1 x H; cbn [unesc_aux] in H; [exact H|].
+  destruct ((p2 =? 0) && (p1 =? 0) && (b =? 3)).
+  - right. eapply IH. exact H.
+  - destruct H as [<-|H]; [left; reflexivity|right; eapply IH; exact H].
+Qed.
+
+Lemma unescape_bytes l : forallb is_byte l = true -> forallb is_byte (unescape l) = true.
+Proof.
+  intros H. rewrite forallb_forall in *. intros x Hx. apply H.
+  destruct l as [|a [|b t]]; cbn [unescape] in Hx; auto.
+  destruct Hx as [<-|[<-|Hx]]; [left; reflexivity|right; left; reflexivity|].
+  right; right. eapply unesc_aux_subset. exact Hx.
+Qed.
+
+(* HEVC NAL entry point: the payload comes back in emulation-prevention-free form, and in escaped
+   form (with the 7C 01 header) when the input was canonically escaped *)
+Theorem parse_nalu_roundtrip sw data x :
+  parse_unspec62_nalu Debug sw data = Ok x -> forallb is_byte data = true -> rpu_side_conditions x ->
+  exists d, validated_trimmed_data data = Ok d /\
+    (forall p out, write_rpu p sw x = Ok out -> out = unescape d) /\
+    (canonically_escaped d = true ->
+     forall p out, write_hevc_unspec62_nalu p sw x = Ok out -> out = 124 :: 1 :: d).
+Proof.
+  unfold parse_unspec62_nalu. intros H Hb Hs.
+  destruct (validated_trimmed_data data) as [d| |s] eqn:Ed; cbn [bind] in H; try discriminate.
+  exists d. split; [reflexivity|].
+  destruct (trimmed_is_suffix _ _ Ed) as [k Hk].
+  assert (Hbd : forallb is_byte (unescape d) = true) by (apply unescape_bytes; subst d; apply forallb_skipn; exact Hb).
+  split.
+  - intros p out Hw. eapply rpu_roundtrip; [exact H|exact Hbd|exact Hs|exact Hw].
+  - intros Hcan p out Hw. unfold write_hevc_unspec62_nalu in Hw.
+    destruct (write_rpu_data p sw x) as [o| |s] eqn:Eo; cbn [bind] in Hw; try discriminate.
+    inversion Hw. rewrite (rpu_roundtrip _ _ _ H Hbd Hs p o Eo). rewrite (canonical_spec _ Hcan). reflexivity.
 Qed.
